@@ -368,6 +368,32 @@ func (x *scriptRun) watch(absentOK bool) func() string {
 	}
 }
 
+// spinCheck measures idle windows. One window at or below the threshold means "not spinning" (work left over
+// from a big frame dies down, a wedged loop does not). A spin is called when the client's reader goroutine is
+// running/runnable around two consecutive hot windows, or — for clients without a reader goroutine, or with a
+// parked one — when ten consecutive windows (3 s) are all hot.
+func (x *scriptRun) spinCheck() (bool, []int) {
+	kind := x.sc.Kind
+	ws := []int{idleCPU(idleWindow)}
+	x.rep.Count("spin_measurements", 1)
+	if ws[0] <= spinThreshold {
+		return false, ws
+	}
+	for len(ws) < 10 {
+		busyBefore := readerState(kind) == "running"
+		w := idleCPU(idleWindow)
+		x.rep.Count("spin_measurements", 1)
+		ws = append(ws, w)
+		if w <= spinThreshold {
+			return false, ws
+		}
+		if busyBefore && readerState(kind) == "running" {
+			return true, ws
+		}
+	}
+	return true, ws
+}
+
 func (x *scriptRun) grace() time.Duration {
 	if x.readerGone != "" {
 		return 0
@@ -471,7 +497,12 @@ func runScript(rep *vh.Reporter, sc *Script, tmp string, seed int64) {
 		}
 		if cerr != nil {
 			x.obs["close_err"] = clip(cerr.Error(), 200)
-			if healthy {
+			if ownPipesOnly(cerr.Error()) {
+				// The library's Close cancels the context its process was started with (exec kills the child, Cmd.Wait
+				// closes the pipe ends) and then closes the same pipes itself: whoever loses that race reports
+				// "file already closed". It happens with any server output, so it is counted, not judged here.
+				rep.Count("close_error_own_pipes_already_closed_race", 1)
+			} else if healthy {
 				x.viol("close-error", "Close() returned an error although the server side was healthy: "+clip(cerr.Error(), 200))
 			}
 		}
@@ -483,6 +514,10 @@ func runScript(rep *vh.Reporter, sc *Script, tmp string, seed int64) {
 			rep.Distinct(fmt.Sprintf("%s|%s|%s|%s", kind, sc.Placement, sc.Class, outcome))
 		}
 		rep.Count("outcome_"+strings.SplitN(outcome, ":", 2)[0], 1)
+		if os.Getenv("C07_TRACE") != "" {
+			b, _ := json.Marshal(x.obs)
+			fmt.Fprintf(os.Stderr, "TRACE %s => %s %s\n", sc.label(), outcome, b)
+		}
 		if sc.Idx%61 == 7 {
 			rep.Sample(map[string]interface{}{"script": describeScript(sc), "outcome": outcome, "observed": x.obs})
 		}
@@ -640,6 +675,8 @@ func runScript(rep *vh.Reporter, sc *Script, tmp string, seed int64) {
 		x.obs["pending_call"] = pe
 		rep.Count("calls_judged", 1)
 		switch {
+		case pe.Returned && pe.Marker == "valid":
+			rep.Count("pending_calls_completed_with_own_answer", 1)
 		case !pe.Returned:
 			x.obs["reader"] = readerState(kind)
 			x.obs["pending_answer_written_by_server"] = x.written("pending")
@@ -658,25 +695,18 @@ func runScript(rep *vh.Reporter, sc *Script, tmp string, seed int64) {
 	}
 
 	// ---- 6. spin monitor ----
-	after := idleCPU(idleWindow)
-	x.obs["idle_cpu_pct_after"] = after
-	rep.Count("spin_measurements", 1)
-	if after > spinThreshold {
-		again := idleCPU(idleWindow)
-		x.obs["idle_cpu_pct_after_2nd_window"] = again
-		rep.Count("spin_measurements", 1)
-		if again > spinThreshold {
+	{
+		spin, ws := x.spinCheck()
+		x.obs["idle_cpu_pct_after"] = ws
+		rep.Max("idle_cpu_pct_after_fragment", int64(ws[len(ws)-1]))
+		if spin {
 			x.obs["reader"] = readerState(kind)
 			if streamKind && x.readerGone == "" && x.obs["reader"] == "running" {
 				x.readerGone = "the idle client burns CPU and its reader goroutine " + readerFunc(kind) + " is running"
 			}
-			x.viol("spins", fmt.Sprintf("with no call pending the client process burnt %d%% and %d%% of a core in two consecutive %s idle windows (before the fragment: %d%%)", after, again, idleWindow, base))
-		}
-		if again < after {
-			after = again
+			x.viol("spins", fmt.Sprintf("with no call pending the client process burnt %v %% of a core in %d consecutive %s idle windows (before the fragment: %d%%)", ws, len(ws), idleWindow, base))
 		}
 	}
-	rep.Max("idle_cpu_pct_after_fragment", int64(after))
 
 	// ---- 7. later well-formed frames on the long-lived stream ----
 	streamAlive := !sc.dead() && (kind == "stdio" || (x.hs != nil && x.hs.StreamAlive()))
@@ -732,6 +762,12 @@ func runScript(rep *vh.Reporter, sc *Script, tmp string, seed int64) {
 		x.obs["later_rounds"] = rounds
 		x.obs["reader_after_later_frames"] = readerState(kind)
 		rep.Count("later_frame_checks", 1)
+		if gotN {
+			rep.Count("later_notifications_delivered", 1)
+		}
+		if gotR {
+			rep.Count("later_roots_list_answered", 1)
+		}
 		if rounds > 1 && gotR {
 			rep.Count("later_frames_eaten_before_resync", int64(rounds-1))
 		}
@@ -756,7 +792,12 @@ func runScript(rep *vh.Reporter, sc *Script, tmp string, seed int64) {
 		x.obs["second_call"] = so
 		rep.Count("calls_judged", 1)
 		switch {
+		case !transportDead && so.Returned && so.Marker == "valid":
+			rep.Count("second_calls_succeeded", 1)
 		case transportDead:
+			if so.Returned && !so.AtDL {
+				rep.Count("second_calls_failed_promptly_on_closed_stream", 1)
+			}
 			if !so.Returned || so.AtDL {
 				x.viol("later-call-not-processed", "the stream had been closed by the server; a later call on the dead transport did not fail promptly but only at / after its deadline")
 			}
@@ -774,9 +815,33 @@ func runScript(rep *vh.Reporter, sc *Script, tmp string, seed int64) {
 		}
 	}
 
+	// a reader that started to spin only after the idle window (e.g. on the later frames) is still a spin
+	if len(x.viols) > 0 && x.readerGone != "" {
+		spun := false
+		for _, v := range x.viols {
+			spun = spun || v.symptom == "spins"
+		}
+		if !spun {
+			spin, ws := x.spinCheck()
+			x.obs["idle_cpu_pct_final_windows"] = ws
+			if spin {
+				x.viol("spins", fmt.Sprintf("with no call pending the client process burnt %v %% of a core in %d consecutive %s idle windows after the later frames (before the fragment: %d%%)", ws, len(ws), idleWindow, base))
+			}
+		}
+	}
+
 	// ---- 9. Close ----
 	doClose(!transportDead && (streamAlive || !streamKind))
 	finish(probeOutcome)
+}
+
+// ownPipesOnly: every error in the list is "file already closed" on one of the client's own pipe ends.
+func ownPipesOnly(msg string) bool {
+	if !strings.HasPrefix(msg, "close errors: [") {
+		return false
+	}
+	n := strings.Count(msg, "failed to close ")
+	return n > 0 && n == strings.Count(msg, ": file already closed")
 }
 
 func (x *scriptRun) scriptPlayed() bool {
